@@ -47,7 +47,7 @@ def main():
     if not diff.exists() or not demo.exists():
         print(f"{meta['id']}: missing files")
         return 2
-    sh("git checkout -- . ", cwd=wt)
+    sh("git checkout -- . && git clean -fdq circuitgraph", cwd=wt)
     base = json.load(open(args.baseline)) if Path(args.baseline).exists() else None
     if base is None:
         base = passing_tests(wt)
@@ -64,7 +64,7 @@ def main():
     now = passing_tests(wt)
     meta["tests_passing_with_change"] = len(now)
     meta["tests_same_as_clean"] = now == base
-    sh("git checkout -- . ", cwd=wt)
+    sh("git checkout -- . && git clean -fdq circuitgraph", cwd=wt)
     confirmed = meta["demo_on_clean_tree"] == 0 and meta["demo_with_change"] != 0 and meta["tests_same_as_clean"]
     meta["confirmed"] = confirmed
     # run my checks against it
@@ -81,7 +81,7 @@ def main():
                 rules = sorted({l.split("violated ")[1].split(" at ")[0] for l in out.splitlines() if " violated " in l})
                 results[c] = {"exit": rc, "violated_rules": rules[:12], "analysis_error": [l for l in out.splitlines() if l.startswith("ANALYSIS-ERROR")][:1]}
     finally:
-        sh("git checkout -- .", cwd=REPO)
+        sh("git checkout -- . && git clean -fdq circuitgraph", cwd=REPO)
         shutil.rmtree("/tmp/seed_ev", ignore_errors=True)
     meta["checks"] = results
     meta["caught"] = any(isinstance(v, dict) and v.get("exit") == 1 for v in results.values())
